@@ -85,14 +85,14 @@ theorem comments_in_content (t : Bytes) (p : Pos) (body rest : Bytes) (f : Nat)
       parseContent t (f + 1) p = parseContent t (f + 1) q :=
   parseContent_comment t p body rest f h hb
 
-/- OPEN: comments at full strength as a statement about two texts — for `pre`, `post` with `pre` ending
-   at a token boundary outside a text node and outside a string,
-   `parse (pre ++ "<!--body-->" ++ post)` and `parse (pre ++ post)` agree up to recorded positions.
-   Not proved: it needs the translation invariance of the whole parser (same run on a text shifted by
-   the comment's length, line/column shifted).  What is proved instead is the same-text form above:
-   at every place where the parser looks for a token or for content, starting in front of the comment
-   equals starting behind it (`comments_are_whitespace`, `comments_between_tokens`,
-   `comments_in_content`).  Note the code also accepts a comment in places XML does not
+/- The statement about TWO texts is in PropsDecor.lean: `roundtrip_decorated` / `comments_do_not_change_result` — for every
+   well-formed tree, every placement of white-space/comment runs at every place where the tokenizer skips white space
+   (in front of the root, inside start and end tags, around `=`, in front of child elements and end tags, next to text)
+   and either quote kind per attribute, the decorated text parses to the same tree as the plain serialisation.
+   OPEN: (see also the OPEN block there) the general form `parse (pre ++ "<!--body-->" ++ post) ≈ parse (pre ++ post)` for
+   ARBITRARY texts pre/post (ill-formed ones, numeric references, …) — it needs the translation invariance of the whole
+   parser.  For arbitrary texts what is proved is the same-text form above (`comments_are_whitespace`,
+   `comments_between_tokens`, `comments_in_content`).  Note the code also accepts a comment in places XML does not
    (`<a <!-- c --> x='1'/>`); the theorems state acceptance, not XML conformance. -/
 
 /-- Processing instructions before the root element: in front of `<?body?>` — ANY body that does not
@@ -220,23 +220,13 @@ example : (Elem.mk [97] 0 0 [([120, 45, 121], [108, 49, 10, 108, 50, 34]), ([98]
       (.elem (.mk [99] 0 0 [] (.text [116] .nil)) .nil))))).nulFree = true := by
   constructor <;> decide
 
-/- OPEN: "copies of element values are independent of their source" (third sentence of C16).
-   NO theorem of this file speaks about it.  In this model element values are immutable Lean values, so
-   the clause holds trivially and says nothing about the code that implements it: `Xml::Variant`'s
-   ref-counted payload block and the clone in the mutable `toElement()` (Xml.hpp).  Covered instead by
-   (a) the Rc area (property C09), whose model has `Xml::Variant` blocks with reference counts and the
-       mutable accessor as clone-if-shared (op `xElem`, Nstd/Rc/Model.lean) and proves for every history of
-       String / Variant / Xml::Variant calls: `Nstd.Rc.no_inplace_write_while_shared` and
-       `Nstd.Rc.st_write_sole` (a block is written in place only while exactly one handle refers to it),
-       `Nstd.Rc.mt_view_stable` (what one handle sees is unchanged by steps through other handles),
-       `Nstd.Rc.ref_counts_handles`, `Nstd.Rc.freed_once_after_last`, `Nstd.Rc.no_use_after_drop` —
-       at the level of one Variant payload, not of whole element trees;
-   (b) the correspondence run of this area only (tested, not proved): ops `copy` (Element copy
-       constructor / assignment, edits of the copy, source destroyed first) and `deep` (write through the
-       mutable `toElement()` down a path of shared payloads, Variant assignment incl. self-assignment),
-       under ASan, against the Python reference.
-   A proof would need a heap model of nested shared payloads (element tree = unfolding of blocks) with
-   `copy_independent : after copy / assign / mutable access / edit through one handle, the unfolding of
-   every other handle is unchanged` over op histories. -/
+/- "Copies of element values are independent of their source" (third sentence of C16): in THIS file element values
+   are immutable Lean values, so the clause says nothing here.  It is stated about a heap model of `Xml::Variant` /
+   `Xml::Element` handles (Heap.lean: blocks with reference counts, copies share, `clear()` frees at zero, mutable
+   accessors clone unless the count is one) in PropsHeap.lean: `release_keeps_values`, `varlevel_step_independent`,
+   `assign_copies_value`, `independent_partial` (all histories of copy assignments, clears and text assignments — incl.
+   the in-place write when the count is one —, values of any depth and sharing).
+   OPEN: (there) the operations that write through an ELEMENT handle (mutable `toElement()` along a path and the edits) — modelled and run against the real code, not yet proved.  Reference-count exactness
+   is property C09 (area Rc). -/
 
 end Nstd.Xml
